@@ -86,6 +86,8 @@ def sweep(pid, cfg, repo, generated=False):
         from concurrent.futures import ThreadPoolExecutor
         for kind in dict.fromkeys(w["kind"] for w in ws):
             inputs = gen_inputs.generate(kind)
+            if generated == "quick":
+                inputs = inputs[::5]          # (every fifth input: the quick tier explores a fifth of the bound)
             if not inputs:
                 continue
             with ThreadPoolExecutor(8) as ex:
